@@ -50,12 +50,27 @@ func genMutant(t *rapid.T, cfg *vlib.Config, set *vlib.ParamSet, f [5]string, sa
 		"empty-field", "drop-field", "dup-field", "swap-fields",
 		"text-truncate", "bytes-truncate", "bytes-extend", "bitflip",
 		"reencode", "separator", "inject-ctl", "alg-id", "pid", "ts", "line2", "whole-file",
-		"bytes-truncate", "bitflip", "pid", "text-truncate",
+		"bytes-truncate", "bitflip", "pid", "text-truncate", "line-prefix", "line-prefix", "line-prefix",
 	}).Draw(t, "kind")
 	m := c02Mutant{Kind: kind}
 	switch kind {
 	case "valid":
 		m.Content = join(fs)
+	case "line-prefix":
+		// the record cut at an arbitrary byte (field boundaries preferred), with or without a line terminator
+		line := strings.Join(fs, ":")
+		k := rapid.IntRange(0, len(line)-1).Draw(t, "cut")
+		if rapid.Bool().Draw(t, "atBoundary") {
+			var bounds []int
+			for i, ch := range line {
+				if ch == ':' {
+					bounds = append(bounds, i, i+1)
+				}
+			}
+			k = rapid.SampledFrom(bounds).Draw(t, "boundary")
+		}
+		m.Content = []byte(line[:k] + rapid.SampledFrom([]string{"", "\n", "\r\n"}).Draw(t, "term"))
+		m.Field = fmt.Sprint(strings.Count(line[:k], ":"))
 	case "valid-nonl":
 		m.Content = []byte(strings.Join(fs, ":"))
 	case "valid-aux":
